@@ -121,6 +121,24 @@ fn main() {
                 writeln!(out, "{}", comps.join("|")).unwrap();
             }
         }
+        "tf" => {
+            // FsCommand::temp_file: <pct path> -> "<same parent 0|1> <suffix is '.' + 24 alphanumerics 0|1> <pct stem>"
+            use std::os::unix::ffi::OsStrExt;
+            for line in stdin.lock().lines() {
+                let line = line.unwrap();
+                let p = path_of(line.trim());
+                let t = FsCommand::temp_file(&p);
+                let name = t.file_name().map(|n| n.as_bytes().to_vec()).unwrap_or_default();
+                let same_parent = p.parent() == t.parent();
+                let (stem, sfx_ok) = if name.len() >= 25 {
+                    let (a, b) = name.split_at(name.len() - 25);
+                    (a.to_vec(), b[0] == b'.' && b[1..].iter().all(|c| c.is_ascii_alphanumeric()))
+                } else {
+                    (name.clone(), false)
+                };
+                writeln!(out, "{} {} {}", same_parent as u8, sfx_ok as u8, pct(&stem)).unwrap();
+            }
+        }
         "lock" => {
             let on = args.get(2).map(|s| s == "1").unwrap_or(true);
             for line in stdin.lock().lines() {
